@@ -1,3 +1,4 @@
 import TinyFlux.Audit.Tool
 import TinyFlux.Props.C12
+import TinyFlux.Props.C12EndToEnd
 #audit TinyFlux.Props.C12
